@@ -4,7 +4,7 @@
 WT=$1; M=$2
 export CARGO_NET_OFFLINE=true CARGO_TARGET_DIR=$WT/target
 cd $WT || exit 2
-git checkout -q -- . ; git clean -fdq -e target
+git checkout -q -- . ; git clean -fdq -e target -e out -e TASK.md
 place=$(head -5 $M/demo.rs | grep -o 'poly-commit/[A-Za-z0-9_/.-]*\.rs' | head -1)
 [ -z "$place" ] && place=poly-commit/tests/demo_$(basename $(dirname $M))_$(basename $M).rs
 name=$(basename $place .rs)
@@ -15,9 +15,9 @@ passed=$(grep -E "^test result" $M/confirm_suite.log | awk '{s+=$4} END{print s+
 failed=$(grep -E "^test result" $M/confirm_suite.log | awk '{s+=$6} END{print s+0}')
 cp $M/demo.rs $place
 nice -n 5 cargo test -p ark-poly-commit --offline --test $name > $M/confirm_demo_with.log 2>&1; with=$?
-git checkout -q -- . ; git clean -fdq -e target
+git checkout -q -- . ; git clean -fdq -e target -e out -e TASK.md
 mkdir -p $(dirname $place); cp $M/demo.rs $place
 nice -n 5 cargo test -p ark-poly-commit --offline --test $name > $M/confirm_demo_without.log 2>&1; without=$?
-rm -f $place; git checkout -q -- . ; git clean -fdq -e target
+rm -f $place; git checkout -q -- . ; git clean -fdq -e target -e out -e TASK.md
 echo "{\"applies\":true,\"suite_exit\":$suite,\"suite_passed\":$passed,\"suite_failed\":$failed,\"demo_with_patch_exit\":$with,\"demo_without_patch_exit\":$without,\"demo_place\":\"$place\"}" > $M/confirm.json
 cat $M/confirm.json
